@@ -277,6 +277,7 @@ impl Subscriber for SubscriberService {
 
         // Pull the available messages from the subscription.
         let messages_fut = async {
+            let mut wakeup = WakeupHandoff::new(&subscription);
             loop {
                 let signal = subscription.messages_available();
                 let deleted = subscription.deleted();
@@ -284,6 +285,7 @@ impl Subscriber for SubscriberService {
                 crate::verif::point("pull.subscribed").await;
                 let received_messages =
                     pull_messages(&subscription, request.max_messages as u16).await?;
+                wakeup.used();
                 // If we got messages, return them.
                 if !received_messages.is_empty() {
                     log::debug!(
@@ -307,7 +309,7 @@ impl Subscriber for SubscriberService {
                 #[cfg(deltio_verif)]
                 crate::verif::point("pull.wait").await;
                 tokio::select! {
-                    _ = signal => {},
+                    _ = signal => wakeup.received(),
                     _ = deleted => return Err(subscription_not_found(&subscription_name)),
                 }
             }
@@ -356,6 +358,7 @@ impl Subscriber for SubscriberService {
             async_stream::try_stream! {
                 // TODO: Respect the max_* settings if possible?
                 let mut was_deleted = false;
+                let mut wakeup = WakeupHandoff::new(&subscription);
                 while !was_deleted {
                     // First, subscribe to the messages signal so that
                     // any new messages from this point forward will trigger
@@ -372,6 +375,7 @@ impl Subscriber for SubscriberService {
                         Err(PullMessagesError::Closed) => break,
                         Ok(pulled) => pulled,
                     };
+                    wakeup.used();
 
                     // Map them to the protocol format.
                     let received_messages = pulled
@@ -399,7 +403,7 @@ impl Subscriber for SubscriberService {
                     #[cfg(deltio_verif)]
                     crate::verif::point("stream.wait").await;
                     was_deleted = tokio::select! {
-                        _ = signal => false,
+                        _ = signal => { wakeup.received(); false },
                         _ = deleted => true
                     };
                 }
@@ -488,6 +492,42 @@ impl Subscriber for SubscriberService {
 
     async fn seek(&self, _request: Request<SeekRequest>) -> Result<Response<SeekResponse>, Status> {
         Err(Status::unimplemented("Seek is not implemented in Deltio"))
+    }
+}
+
+/// A consumer that was woken because messages are available is expected to pull.
+/// If it goes away before it did (the client disconnected while the pull request was
+/// waiting for room in the subscription's mailbox), the wake-up is passed on so that the
+/// messages do not sit in the backlog while other consumers keep waiting.
+struct WakeupHandoff<'a> {
+    subscription: &'a crate::subscriptions::Subscription,
+    pending: bool,
+}
+
+impl<'a> WakeupHandoff<'a> {
+    fn new(subscription: &'a crate::subscriptions::Subscription) -> Self {
+        Self {
+            subscription,
+            pending: false,
+        }
+    }
+
+    /// We were woken up and now owe a pull.
+    fn received(&mut self) {
+        self.pending = true;
+    }
+
+    /// The pull was carried out.
+    fn used(&mut self) {
+        self.pending = false;
+    }
+}
+
+impl Drop for WakeupHandoff<'_> {
+    fn drop(&mut self) {
+        if self.pending {
+            self.subscription.pass_on_wakeup();
+        }
     }
 }
 
